@@ -266,28 +266,17 @@ func checkValidateBasic(r *Run) {
 			return src == ssa.Value(getH) && i == 1
 		})
 	})
-	addrEdges := condEdges(fn, func(cond ssa.Value, _ *ssa.If) int {
-		return boolCond(cond, func(v ssa.Value) bool {
-			c, ok := v.(*ssa.Call)
-			if !ok {
-				return false
-			}
-			n := calleeName(c)
-			if n != "(data/keys.Address).Equal" && n != "bytes.Equal" {
-				return false
-			}
-			a, b := c.Call.Args[0], c.Call.Args[1]
-			isHAddr := func(x ssa.Value) bool {
-				cc, ok := unwrapConv(x).(*ssa.Call)
-				return ok && cc.Call.IsInvoke() && cc.Call.Method.Name() == "Address" && isH(cc.Call.Value)
-			}
-			isSigner := func(x ssa.Value) bool {
-				pa := pathOf(x)
-				return pa.Root == ssa.Value(signers) && usesIndexOrRange(x, idx, signers)
-			}
-			return (isHAddr(a) && isSigner(b)) || (isHAddr(b) && isSigner(a))
-		})
-	})
+	isHAddr := func(x ssa.Value) bool {
+		cc, ok := unwrapConv(x).(*ssa.Call)
+		return ok && cc.Call.IsInvoke() && cc.Call.Method.Name() == "Address" && isH(cc.Call.Value)
+	}
+	isSigner := func(x ssa.Value) bool {
+		pa := pathOf(x)
+		return pa.Root == ssa.Value(signers) && usesIndexOrRange(x, idx, signers)
+	}
+	// any of the repository's equality idioms (Address.Equal, bytes.Equal, bytes.Compare ==/!= 0), either operand order
+	addrG := eqG("address(pubkey_i) == signer_i", true, isHAddr, isSigner)
+	addrEdges := condEdges(fn, func(cond ssa.Value, iff *ssa.If) int { return addrG.Classify(p, fn, cond, iff) })
 	verEdges := condEdges(fn, func(cond ssa.Value, _ *ssa.If) int {
 		return boolCond(cond, func(v ssa.Value) bool {
 			c, ok := v.(*ssa.Call)
